@@ -46,7 +46,7 @@ def read_table(path):
                             fw=None if t[8] == "-" else (int(t[8]), int(t[9])), is_result=t[10] == "1",
                             cache_if=t[11] == "1", inval_on=t[12] == "1", ret=int(t[13]) // 10, sig=int(t[13]) % 10,
                             tags=[] if t[14] == "-" else t[14].split(","), events=[] if t[15] == "-" else t[15].split(","),
-                            deps=[] if t[16] == "-" else t[16].split(",")))
+                            deps=[] if t[16] == "-" else t[16].split(","), gates=int(t[17]) if len(t) > 17 else 0))
     return fns
 
 
@@ -67,6 +67,7 @@ PROFILES = {
     "C13": dict(sel=lambda f: f["fl"] != "t" or f["idx"] % 5 == 0, pure=True,
                 events=["invw", "invall", "invwn", "tag", "invc", "dep", "event"], threads=1, heavy_inval=True),
     "C14": dict(sel=lambda f: True, pure=True, events=[], threads=4),
+    "C20": dict(sel=lambda f: f["gates"] > 0, pure=False, events=[], threads=3, async_susp=True),
     "C04": dict(sel=lambda f: f["limit"] is not None and not f["inval_on"], pure=True, events=["invw", "invall", "tag"], threads=2),
     "C06": dict(sel=lambda f: f["ttl"] is not None, pure=True, events=["tick", "invw"], threads=2),
     "C07": dict(sel=lambda f: f["pol"] in ("fifo", "lru") and (f["limit"] or f["mem"]), pure=True, events=["invw", "invall"], threads=1),
@@ -101,7 +102,51 @@ def gen_chain_case(r, fns):
     return chain, evs
 
 
+def gen_async_case(r, fns):
+    """a call suspended at an await point of its body; other operations meanwhile; resume or drop"""
+    gated = [f for f in fns if f["gates"]]
+    f = r.pick(gated)
+    others = [g for g in fns if g["fl"] != "t" and g["idx"] != f["idx"] and not g["gates"]]
+    g = r.pick(others)
+    cap = (f["limit"] or 3) + 2
+    evs, vc = [], [0]
+    has_ttl = f["ttl"] is not None
+
+    def call(h, x, kind="call", tid=None):
+        vc[0] += 1
+        ok = r.chance(3, 4) if h["is_result"] else True
+        dt = r.pick([0, 0, 0, 1000, 2000]) if has_ttl else 0
+        return "E %d %s %d %d %d %s %d %d %d %d" % (dt, kind, h["idx"], x, r.below(3) if tid is None else tid, "ok" if ok else "err",
+                                                   vc[0], r.pick(LENS), 1 if r.chance(1, 3) else 0, 1 if r.chance(2, 3) else 0)
+    for _ in range(r.below(4)):
+        evs.append(call(f, r.below(cap)))
+    for rnd in range(1 + r.below(2)):
+        x = r.below(cap)
+        evs.append(call(f, x, "callA", 3))
+        for _ in range(r.below(5)):
+            k = r.below(10)
+            if k < 4:
+                evs.append(call(f, x if r.chance(1, 2) else r.below(cap)))      # same key / same cache meanwhile
+            elif k < 6:
+                evs.append(call(g, r.below(3)))
+            elif k == 6:
+                evs.append("E 0 invw %d %d" % (f["idx"], x))
+            elif k == 7:
+                evs.append("E 0 tag t1")
+            elif k == 8:
+                evs.append("E %d nop" % r.pick([1000, 2000]))
+            else:
+                evs.append("E 0 sget %d" % f["idx"])
+        evs.append("E %d %s" % (r.pick([0, 0, 1000]) if has_ttl else 0, "callB" if r.chance(1, 2) else "callD"))
+        for _ in range(1 + r.below(3)):
+            evs.append(call(f, x if r.chance(1, 2) else r.below(cap)))
+    # a suspended call may have been skipped (served from the cache); callB/callD need a suspended call:
+    return [f, g], evs
+
+
 def gen_case(r, fns, prof, nev):
+    if prof.get("async_susp"):
+        return gen_async_case(r, fns)
     if prof.get("heavy_inval") and r.chance(1, 6):
         return gen_chain_case(r, fns)
     pool = [f for f in fns if prof["sel"](f)]
